@@ -27,6 +27,7 @@ import (
 	"sort"
 	"strconv"
 	"strings"
+	"sync"
 	"sync/atomic"
 	"syscall"
 	"testing"
@@ -366,6 +367,24 @@ func c14CPU() time.Duration {
 		return 0
 	}
 	return time.Duration(ru.Utime.Nano() + ru.Stime.Nano())
+}
+
+// texts whose normal form is compared with their first parse after every generated input
+var (
+	c14Probes    = []string{"tag:a", "-tag:a", "tag:a or -tag:a", "service:web tag:b -mark:m", "cport:80 or -cport:80", "tag:a -tag:a or tag:b", `cdata:aa then sdata:bb`, "host:10.0.0.1/8 -chost:10.1.0.0/16"}
+	c14ProbeBase []*Query
+	c14ProbeOnce sync.Once
+	c14ProbeNext atomic.Int32
+)
+
+func c14ProbeInit() {
+	for _, p := range c14Probes {
+		q, err := Parse(p)
+		if err != nil {
+			panic(fmt.Sprintf("probe %q does not parse: %v", p, err))
+		}
+		c14ProbeBase = append(c14ProbeBase, q)
+	}
 }
 
 //go:noinline
@@ -1206,6 +1225,15 @@ func c14Prop(rt *rapid.T, c *vlib.Case, t *testing.T, open map[string]bool) {
 		}
 		if msg := c14SameQuery(out.q1, out.q2); msg != "" {
 			rt.Fatalf("two parses of %q give different queries: %s", text, msg)
+		}
+		// what Parse answers does not depend on what was parsed before: a fixed text parsed now equals what it
+		// gave when the process started
+		c14ProbeOnce.Do(c14ProbeInit)
+		pi := int(c14ProbeNext.Add(1)) % len(c14Probes)
+		if pq, err := Parse(c14Probes[pi]); err != nil {
+			rt.Fatalf("Parse(%q) fails after Parse(%q): %v", c14Probes[pi], text, err)
+		} else if msg := c14SameQuery(c14ProbeBase[pi], pq); msg != "" {
+			rt.Fatalf("Parse(%q) gives another query after Parse(%q) than at the start of the process: %s", c14Probes[pi], text, msg)
 		}
 		c.Label("outcome:query")
 		n := len(out.q1.Conditions)
